@@ -8,21 +8,21 @@ import BpProofs.SpecWf
 namespace Bp
 open Gen
 
-def slotOk (f : FieldD) (v : Val) : Bool :=
+def repOk (f : FieldD) (v : Val) : Bool :=
   if f.ty == .map || f.ty == .message then true
   else if f.repeated then isPhVal v || isListVal v
   else !isListVal v
 
 /-- as many slots as declared fields, each holding a value of the right shape -/
 def WfState (d : MsgD) (st : MState) : Prop :=
-  st.slots.length = d.fields.length ∧ ∀ i f, d.fields[i]? = some f → slotOk f (st.slots.getD i .ph) = true
+  st.slots.length = d.fields.length ∧ ∀ i f, d.fields[i]? = some f → repOk f (st.slots.getD i .ph) = true
 
-theorem slotOk_ph (f : FieldD) : slotOk f .ph = true := by
-  unfold slotOk; repeat' split
+theorem repOk_ph (f : FieldD) : repOk f .ph = true := by
+  unfold repOk; repeat' split
   all_goals rfl
 
-theorem slotOk_list (f : FieldD) (xs : List Val) (h : f.repeated = true) : slotOk f (.list xs) = true := by
-  unfold slotOk; split
+theorem repOk_list (f : FieldD) (xs : List Val) (h : f.repeated = true) : repOk f (.list xs) = true := by
+  unfold repOk; split
   · rfl
   · simp [h, isListVal]
 
@@ -32,8 +32,8 @@ theorem msgKindDef_ne_list (k : MsgKind) : msgKindDef k ≠ .list := by cases k 
 theorem defaultOfKind_notList (S : Schema) (k : DefKind) (h : k ≠ .list) : isListVal (defaultOfKind S k) = false := by
   cases k <;> first | rfl | exact absurd rfl h
 
-theorem slotOk_default (S : Schema) (f : FieldD) : slotOk f (defaultOf S f) = true := by
-  unfold slotOk
+theorem repOk_default (S : Schema) (f : FieldD) : repOk f (defaultOf S f) = true := by
+  unfold repOk
   split
   · rfl
   · rename_i h1
@@ -49,19 +49,19 @@ theorem slotOk_default (S : Schema) (f : FieldD) : slotOk f (defaultOf S f) = tr
       · simp [defaultOfKind, isListVal]
       · rw [defaultOfKind_notList S _ (scalarDef_ne_list _)]; rfl
 
-theorem slotOk_storedVal (S : Schema) (f : FieldD) (v : Val) : slotOk f (storedVal S v) = slotOk f v := by
+theorem repOk_storedVal (S : Schema) (f : FieldD) (v : Val) : repOk f (storedVal S v) = repOk f v := by
   cases v <;> try rfl
   simp only [storedVal]; split <;> rfl
 
-theorem slotOk_materialize (S : Schema) (f : FieldD) (v : Val) (h : slotOk f v = true) :
-    slotOk f (materialize S f v) = true := by
-  cases v <;> first | exact h | exact slotOk_default S f
+theorem repOk_materialize (S : Schema) (f : FieldD) (v : Val) (h : repOk f v = true) :
+    repOk f (materialize S f v) = true := by
+  cases v <;> first | exact h | exact repOk_default S f
 
 theorem wf_setAt (d : MsgD) (st : MState) (idx : Nat) (f : FieldD) (x : Val) (hf : d.fields[idx]? = some f)
-    (hw : WfState d st) (hx : slotOk f x = true) : WfState d { st with slots := setAt st.slots idx x } := by
+    (hw : WfState d st) (hx : repOk f x = true) : WfState d { st with slots := setAt st.slots idx x } := by
   refine ⟨by simp [setAt_length, hw.1], ?_⟩
   intro i fi hfi
-  show slotOk fi ((setAt st.slots idx x).getD i .ph) = true
+  show repOk fi ((setAt st.slots idx x).getD i .ph) = true
   rw [setAt_getD]
   split
   · rename_i hh
@@ -70,7 +70,7 @@ theorem wf_setAt (d : MsgD) (st : MState) (idx : Nat) (f : FieldD) (x : Val) (hf
   · exact hw.2 i fi hfi
 
 theorem wf_setAttr (S : Schema) (d : MsgD) (st : MState) (idx : Nat) (f : FieldD) (x : Val)
-    (hf : d.fields[idx]? = some f) (hw : WfState d st) (hx : slotOk f x = true) :
+    (hf : d.fields[idx]? = some f) (hw : WfState d st) (hx : repOk f x = true) :
     WfState d (setAttr S d.fields st idx x) := by
   refine ⟨by rw [setAttr_slots_length]; exact hw.1, ?_⟩
   intro i fi hfi
@@ -79,16 +79,16 @@ theorem wf_setAttr (S : Schema) (d : MsgD) (st : MState) (idx : Nat) (f : FieldD
   · rename_i hh
     obtain ⟨e, _⟩ := hh; subst e
     rw [hf] at hfi; injection hfi with e; subst e
-    rw [slotOk_storedVal]; exact hx
+    rw [repOk_storedVal]; exact hx
   · split
-    · exact slotOk_ph fi
+    · exact repOk_ph fi
     · exact hw.2 i fi hfi
 
 theorem wf_prepCurrent (S : Schema) (d : MsgD) (st : MState) (idx : Nat) (f : FieldD)
     (hf : d.fields[idx]? = some f) (hw : WfState d st) : WfState d (prepCurrent S d st idx f) := by
   rcases prepCurrent_cases S d st idx f with ⟨_, e⟩ | ⟨_, e⟩ <;> rw [e]
-  · exact wf_setAttr S d st idx f _ hf hw (slotOk_default S f)
-  · exact wf_setAt d st idx f _ hf hw (slotOk_materialize S f _ (hw.2 idx f hf))
+  · exact wf_setAttr S d st idx f _ hf hw (repOk_default S f)
+  · exact wf_setAt d st idx f _ hf hw (repOk_materialize S f _ (hw.2 idx f hf))
 
 /-- slot `idx` right after the `current = getattr(...)` step -/
 theorem prepCurrent_slot (S : Schema) (d : MsgD) (st : MState) (idx : Nat) (f : FieldD)
@@ -120,7 +120,7 @@ theorem prepCurrent_repeated_list (S : Schema) (d : MsgD) (st : MState) (idx : N
   | true => exact ⟨[], by simp [hdef, storedVal], fun h => by simp at h⟩
   | false =>
     have hok := hw.2 idx f hf
-    unfold slotOk at hok
+    unfold repOk at hok
     have hm' : (f.ty == PType.map) = false := by simpa using hm
     have hmsg' : (f.ty == PType.message) = false := by simpa using hmsg
     simp only [hm', hmsg', Bool.or_self, Bool.false_eq_true, if_false, hr, if_true] at hok
@@ -143,11 +143,11 @@ theorem applyField_wf (S : Schema) (rec : Loader) (d : MsgD) (st st' : MState) (
       rw [hv] at h; simp only [bind_ok] at h
       have hw1 := wf_prepCurrent S d st idx f hf hw
       rcases storeValue_cases S d _ st' idx f v h with ⟨hm, x, e⟩ | ⟨hm, xs, hc, e⟩ | ⟨hm, hc, e⟩ <;> rw [e]
-      · exact wf_setAt d _ idx f x hf hw1 (by unfold slotOk; simp [hm])
+      · exact wf_setAt d _ idx f x hf hw1 (by unfold repOk; simp [hm])
       · apply wf_setAt d _ idx f _ hf hw1
         have hok := hw1.2 idx f hf
         rw [hc] at hok
-        unfold slotOk at hok ⊢
+        unfold repOk at hok ⊢
         split
         · rfl
         · rename_i h1
@@ -157,14 +157,14 @@ theorem applyField_wf (S : Schema) (rec : Loader) (d : MsgD) (st st' : MState) (
           · rename_i hr; simp only [hr, if_false, Bool.false_eq_true] at hok; simp [isListVal] at hok
       · apply wf_setAttr S d _ idx f v hf hw1
         by_cases hmsg : f.ty = .message
-        · unfold slotOk; simp [hmsg]
+        · unfold repOk; simp [hmsg]
         · cases hr : f.repeated with
           | true =>
             obtain ⟨xs, hx, _⟩ := prepCurrent_repeated_list S d st idx f hf hw hr hm hmsg
             rw [hx] at hc; simp [isListVal] at hc
           | false =>
             have := decodeValue_notList S rec f pf v hr hfit hm hmsg hv
-            unfold slotOk
+            unfold repOk
             have hm' : (f.ty == PType.map) = false := by simpa using hm
             have hmsg' : (f.ty == PType.message) = false := by simpa using hmsg
             simp [hm', hmsg', hr, this]
@@ -195,12 +195,12 @@ theorem freshState_wf (d : MsgD) (hd : NoRepeatedOptional d) : WfState d (freshS
   · -- None in an optional slot
     rename_i ho
     have hmem : f ∈ d.fields := List.mem_of_getElem? hf
-    unfold slotOk
+    unfold repOk
     split
     · rfl
     · split
       · rename_i hr; have := hd f hmem hr; rw [ho] at this; simp at this
       · rfl
-  · exact slotOk_ph f
+  · exact repOk_ph f
 
 end Bp
